@@ -112,7 +112,12 @@ def specLevel (ctx : SCtx) (rec : SRec) (asnName : String) (tag : Option Tag) (t
     let am : List ItemF × String := match e with
       | .ref n => ([], titleS n)
       | e' => (rec ("Anonymous_" ++ name) et e', "Anonymous" ++ name)
-    am.1 ++ [specNewtype ctx name tag ty ((if isSet then "SetOf<" else "SequenceOf<") ++ am.2 ++ ">")]
+    -- the element tag belongs to the hoisted element item; for a referenced element (nothing is
+    -- hoisted) the expectation is recorded on the newtype's single field
+    let elemTag : Option TagF := match e with | .ref _ => specTag ctx et e | _ => none
+    am.1 ++ [{ specNewtype ctx name tag ty ((if isSet then "SetOf<" else "SequenceOf<") ++ am.2 ++ ">") with
+               fields := [{ name := "0", ty := (if isSet then "SetOf<" else "SequenceOf<") ++ am.2 ++ ">",
+                            tag := elemTag, ext := .none, hasDefault := false, identifier := none }] }]
   | .prim p => [specNewtype ctx (titleS asnName) tag ty (primName p)]
   | .ref n => [specNewtype ctx (titleS asnName) tag ty (titleS n)]
 
